@@ -571,6 +571,11 @@ class PE:
                 return UNK
             eq = x == y
             return ("b", eq if cal.endswith("eq") else not eq)
+        if n.endswith("Result::<T, E>::map_err"):
+            v = a(0)
+            if v is not None and v[0] == "adt":
+                return v if v[1] == 0 else ("adt", 1, (UNK,))
+            return UNK
         if n.startswith("std::option::Option::<") or n.startswith("core::option::Option::<"):
             v = a(0)
             if v is None or v[0] != "adt":
